@@ -24,6 +24,7 @@ RULES = {
     "rev_dt": {"title": "rev_dt", "name": "rev_dt", "rev": __import__("datetime").date(2024, 1, 1), "logsource": {"category": "n"}, "detection": {"s": {"k": "v"}, "condition": "s"}},
     "rev_none": {"title": "rev_none", "name": "rev_none", "rev": None, "logsource": {"category": "n"}, "detection": {"s": {"k": "v"}, "condition": "s"}},
     "rev_date": {"title": "rev_date", "name": "rev_date", "rev": "2024-01-01", "modified": "2024-01-01", "logsource": {"category": "n"}, "detection": {"s": {"k": "v"}, "condition": "s"}},
+    "wd": {"title": "wd", "name": "wd", "logsource": {"category": "n"}, "detection": {"s": {"CommandLine|windash|contains": "-a", "k": "v"}, "condition": "s"}},
     "sel": {"title": "sel", "name": "sel", "logsource": {"category": "c", "product": "windows"}, "detection": {"sel_a": {"f": "1"}, "sel_b": {"f|exists": False}, "condition": "1 of sel_* and not sel_b"}},
     # the same TEXT with different meaning in different rules: a number and a string, a literal %x% and a placeholder, a plain and a
     # case-sensitive value (whatever a step remembers about one of them must not answer for the other)
@@ -56,9 +57,10 @@ PIPELINE = {"name": "p", "priority": 10, "vars": {"admins": ["root", "admin"]}, 
     "postprocessing": [{"type": "embed", "prefix": "[", "suffix": "]"}, {"type": "template", "template": "{{ query }} fields={{ rule.fields | join(',') }}"}]}
 # the fields list of a rule: set from the configuration, then edited per rule (the configuration must not drift with the rules converted)
 PIPELINE["transformations"].insert(0, PIPELINE["transformations"].pop())          # the strict mapping check first: later items of this pipeline rename every field (which counts as mapped)
-PIPELINE["transformations"][2:2] = [{"id": "setf", "type": "set_field", "fields": ["host", "user"]},
-                                    {"id": "addf", "type": "add_field", "field": "EventID", "rule_conditions": [{"type": "logsource", "product": "windows"}]},
-                                    {"id": "remf", "type": "remove_field", "field": "user", "rule_conditions": [{"type": "logsource", "product": "linux"}]}]
+# (only for the rules of category n: the other rules keep the fields list they were written with - lin_h's is read by a later item)
+PIPELINE["transformations"][2:2] = [{"id": "setf", "type": "set_field", "fields": ["host", "user"], "rule_conditions": [{"type": "logsource", "category": "n"}]},
+                                    {"id": "addf", "type": "add_field", "field": "EventID", "rule_conditions": [{"type": "contains_field", "field": "port"}]},
+                                    {"id": "remf", "type": "remove_field", "field": "user", "rule_conditions": [{"type": "contains_field", "field": "Path"}]}]
 
 
 @register
@@ -176,6 +178,34 @@ class C15Bounded(Bounded):
             after = probe(0)
             if after != fresh:
                 fail("backend-options", f"a rule using %backend_index% converts to {fresh} in a fresh process, and to {after} after another backend object was used with the option index='prod'", ["backend options"])
+        # two pipelines that render the SAME template file with DIFFERENT helper files: creating the second must not change what the first renders
+        import tempfile, shutil, os
+        tdir = tempfile.mkdtemp(prefix="c15_tmpl_")
+        try:
+            open(os.path.join(tdir, "t.j2"), "w").write("{{ query }} by {{ who() }}")
+            for nm in ("A", "B"):
+                open(os.path.join(tdir, f"helpers_{nm}.py"), "w").write(f"def who():\n    return 'helper {nm}'\nvars = {{'who': who}}\n")
+            mkp = lambda nm: ProcessingPipeline.from_dict({"name": nm, "priority": 10, "postprocessing": [{"type": "template", "path": tdir, "template": "t.j2", "vars": os.path.join(tdir, f"helpers_{nm}.py")}]}, allow_template_vars=True)
+            rule_t = {"title": "t", "logsource": {"category": "c"}, "detection": {"s": {"f": "v"}, "condition": "s"}}
+            for inline in (False, True):
+                ev += 1
+                nontriv += 1
+                try:
+                    if inline:
+                        mk2 = lambda nm: ProcessingPipeline.from_dict({"name": nm, "priority": 10, "postprocessing": [{"type": "template", "template": "{{ query }} by {{ who() }}", "vars": os.path.join(tdir, f"helpers_{nm}.py")}]}, allow_template_vars=True)
+                    else:
+                        mk2 = mkp
+                    ba = TextQueryTestBackend(mk2("A"))
+                    first = ba.convert(SigmaCollection.from_dicts([copy.deepcopy(rule_t)]))
+                    bb = TextQueryTestBackend(mk2("B"))
+                    second = ba.convert(SigmaCollection.from_dicts([copy.deepcopy(rule_t)]))
+                    other = bb.convert(SigmaCollection.from_dicts([copy.deepcopy(rule_t)]))
+                except Exception as e:
+                    first, second, other = f"{type(e).__name__}: {e}", None, None
+                if first != ['f="v" by helper A'] or second != first or other != ['f="v" by helper B']:
+                    fail("template-helpers", f"two pipelines rendering the same {'inline text' if inline else 'template file'} with different vars files: first pipeline {first}, again after the second was created {second}, second pipeline {other}", ["template helpers", inline])
+        finally:
+            shutil.rmtree(tdir, ignore_errors=True)
         return {"evaluations": ev, "distinct_nontrivial": nontriv, "failures": fails[:20], "failure_counts": seen,
                 "bound": f"{len(RULES)} rules (negation, CIDR, placeholders incl. an unresolvable one, multi-condition, selectors, exists) x {'8' if tier == 'quick' else '60'} orders x 3 backend configurations (default, not-equals mode with "
                          "state defaults, no native CIDR / no not-exists) x with / without a filter; one backend and one pipeline object per configuration",
